@@ -92,3 +92,33 @@ Definition scale_row (k : Q) (row : list Q) : list Q := map (Qmult k) row.
 (* what was read back from the file against the model of the stored form applied to what was in memory *)
 Definition c13_store_case (mem restored : list (list Q)) : nat :=
   code [ qmat_eqb restored (roundtrip any_nonzero mem); (length mem =? length restored)%nat ].
+
+(* ---------- the coordinate convention of the input ---------- *)
+(* A catalog is given as coordinates, not positions: right ascension and declination in some unit, the right ascension
+   in some range.  Reading (DataChunk.create, then every use through AngularCoordinates.to_3d): the coordinates are
+   multiplied by the unit factor c (deg2rad for degrees=True, 1 for radian input) and turned into a position by [pos]
+   (cos / sin of the angles), which has a period T in the right ascension.  The code applies no range check and no
+   canonicalisation to the right ascension: [read].  [read_wrapped W] is a reading that first wraps the right ascension
+   as given into [0, W) - before the unit factor, whatever the unit. *)
+From Coq Require Import Qround.
+Record cobj := { cra : Q; cdec : Q; cw : Q; cpatch : nat }.
+Definition wrap (W x : Q) : Q := x - inject_Z (Qfloor (x / W)) * W.
+Section Conv.
+  Context {P : Type} (pos : Q -> Q -> P).
+  Definition read (c : Q) (o : cobj) : lobj P :=
+    {| lp := pos (c * cra o) (c * cdec o); lw := cw o; lpatch := cpatch o |}.
+  Definition read_wrapped (W c : Q) (o : cobj) : lobj P :=
+    {| lp := pos (c * wrap W (cra o)) (c * cdec o); lw := cw o; lpatch := cpatch o |}.
+End Conv.
+(* the same positions in another unit: every coordinate multiplied by u (to be read with c / u) *)
+Definition in_unit (u : Q) (o : cobj) : cobj :=
+  {| cra := u * cra o; cdec := u * cdec o; cw := cw o; cpatch := cpatch o |}.
+(* the right ascension moved by whole periods, an own number of them per object: [0, T'), (-T'/2, T'/2], +-T', mixtures *)
+Definition shift_ra (T' : Q) (k : cobj -> Z) (o : cobj) : cobj :=
+  {| cra := cra o + inject_Z (k o) * T'; cdec := cdec o; cw := cw o; cpatch := cpatch o |}.
+
+(* a concrete periodic reading for the examples: positions on a circle of circumference T (and a height), the
+   distance along the shorter arc plus the difference in height *)
+Definition circle_pos (T a d : Q) : Q * Q := (Qred (wrap T a), Qred d).
+Definition circle_ang (T : Q) (p q : Q * Q) : Q :=
+  let s := wrap T (fst p - fst q) in (if Qleb s (T - s) then s else T - s) + Qabs (snd p - snd q).
